@@ -1,19 +1,35 @@
 #!/bin/bash
 # usage: ./check.sh <property> [quick|thorough]   |   ./check.sh replay <file>
-# Rebuilds the harness against /repo's current working tree (the module
-# replace points at /repo, so every edit there is picked up), then runs it.
+# Rebuilds the harness against /repo's current working tree, then runs it.
+#  - plain build (C03 C09 C12 C15 C18): module replace points at /repo itself;
+#  - instrumented build (C06 C13 C14; C20 with -race): tools/simbuild.sh copies
+#    /repo's working tree to .cache/inst/src, instruments the copy, builds.
 # exit: 0 held, 1 violation, 2 harness/build trouble.
 cd "$(dirname "$0")" || exit 2
-export GOFLAGS=-mod=mod GOPROXY=off GOSUMDB=off GOTOOLCHAIN=local CGO_ENABLED=${CGO_ENABLED:-1}
+export GOFLAGS=-mod=mod GOPROXY=off GOSUMDB=off GOTOOLCHAIN=local
 export VERIF_ROOT="$(pwd)"
 mkdir -p .cache/bin evidence
-if ! go build -o .cache/bin/verif ./cmd/verif 2> .cache/build.err; then
-  echo "harness: build failed (exit 2, not a violation)" >&2
-  cat .cache/build.err >&2
-  exit 2
-fi
+prop="$1"
 if [ "$1" = "replay" ]; then
-  exec .cache/bin/verif replay "$2"
+  prop=$(grep -o '"property": *"C[0-9]*"' "$2" | head -1 | grep -o 'C[0-9]*')
+fi
+case "$prop" in
+  C06|C13|C14)
+    tools/simbuild.sh || exit 2
+    bin=.cache/bin/verif-inst ;;
+  C20)
+    tools/simbuild.sh race || exit 2
+    bin=.cache/bin/verif-inst-race ;;
+  *)
+    if ! go build -o .cache/bin/verif ./cmd/verif 2> .cache/build.err; then
+      echo "harness: build failed (exit 2, not a violation)" >&2
+      cat .cache/build.err >&2
+      exit 2
+    fi
+    bin=.cache/bin/verif ;;
+esac
+if [ "$1" = "replay" ]; then
+  exec $bin replay "$2"
 fi
 tier="${2:-${VERIF_TIER:-quick}}"
-exec .cache/bin/verif check "$1" "$tier"
+exec $bin check "$1" "$tier"
